@@ -195,6 +195,132 @@ func c04(c *core.Ctx) {
 		// the identity is memoised: the memo holds nothing but what Hash computed from the content (a transaction decoded from the wire
 		// or from JSON must not bring its own identity along)
 		memoCache(c, "Transaction.hash-memo", c.FieldVar(typ+".Transaction", "hash"), hfn, rlp)
+		// ... and the memo never goes stale: a field the identity is computed from is stored only into a transaction that cannot have a
+		// filled memo yet (a literal, a local copy, the result of Clone, a decode target), or by a table-listed in-place writer whose use keeps
+		// the identity (premises below)
+		inPlace := map[string]string{
+			"chain/types.GasPayerSignatureTx":    "sign-side helper for tests and wallets: no caller in the shipped code (premise: closed caller set, empty)",
+			"(*chain/types.Transaction).SetData": "only RunBoxTxs, which puts back the same sub transactions with their GasUsed filled in; a box's identity is the list of its sub transaction identities, which do not cover GasUsed (premise: caller set and argument shape)",
+		}
+		var idFields []*types.Var
+		for i := 0; i < st.NumFields(); i++ {
+			if idf[st.Field(i).Name()] {
+				idFields = append(idFields, st.Field(i))
+			}
+		}
+		c.Floor("identity-fields", len(idFields), 14)
+		clone := c.Method(typ+".Transaction", "Clone")
+		var freshRoot func(v ssa.Value, d int) bool
+		freshRoot = func(v ssa.Value, d int) bool {
+			if d > 10 {
+				return false
+			}
+			switch x := v.(type) {
+			case *ssa.Alloc:
+				return true
+			case *ssa.FieldAddr:
+				return freshRoot(x.X, d+1)
+			case *ssa.IndexAddr:
+				return freshRoot(x.X, d+1)
+			case *ssa.UnOp:
+				if x.Op == token.MUL {
+					// a pointer held in a local cell: every value stored into the cell must be fresh
+					if al, ok := x.X.(*ssa.Alloc); ok {
+						n := 0
+						for _, r := range *al.Referrers() {
+							if stt, ok := r.(*ssa.Store); ok && stt.Addr == ssa.Value(al) {
+								n++
+								if !freshRoot(stt.Val, d+1) {
+									return false
+								}
+							}
+						}
+						return n > 0
+					}
+				}
+			case *ssa.Call:
+				return core.CalleeObj(x) == clone
+			case *ssa.Parameter:
+				// a decode helper that fills the value it is handed: every caller hands it a fresh one
+				pf := x.Parent()
+				fo, _ := pf.Object().(*types.Func)
+				if fo == nil {
+					return false
+				}
+				idx := -1
+				for i, pp := range pf.Params {
+					if pp == x {
+						idx = i
+					}
+				}
+				_, sites := callersOf(c, fo)
+				if len(sites) == 0 || idx < 0 {
+					return false
+				}
+				for _, cs := range sites {
+					args := cs.Instr.Common().Args
+					if cs.Instr.Common().IsInvoke() || idx >= len(args) || !freshRoot(args[idx], d+4) {
+						return false
+					}
+				}
+				return true
+			case *ssa.Phi:
+				for _, e := range x.Edges {
+					if !freshRoot(e, d+1) {
+						return false
+					}
+				}
+				return true
+			}
+			return false
+		}
+		seenW := map[string]bool{}
+		nFresh := 0
+		for _, ss := range fieldStores(c, idFields...) {
+			fa := ss.St.Addr.(*ssa.FieldAddr)
+			if freshRoot(fa.X, 0) {
+				nFresh++
+				continue
+			}
+			name := core.FuncName(core.Outer(ss.Fn))
+			if seenW[name+"#"+ss.Field.Name()] {
+				continue
+			}
+			seenW[name+"#"+ss.Field.Name()] = true
+			reason, listed := inPlace[name]
+			c.Check("identity-stable/in-place-writer@"+name+"#"+ss.Field.Name(), "who-may-write", listed, ss.St.Pos(), "%s stores the identity field %s into a transaction that may already have answered Hash() (its memo is not reset); listed=%v: %s", name, ss.Field.Name(), listed, reason)
+		}
+		c.Floor("identity-stable/fresh-stores", nFresh, 10)
+		closedCallers(c, "GasPayerSignatureTx", nil, c.FuncObj(typ+".GasPayerSignatureTx"))
+		rbt := c.Fn("chain/transaction.BoxTxEnv.RunBoxTxs")
+		sds := closedCallers(c, "Transaction.SetData", []string{core.FuncName(rbt)}, c.Method(typ+".Transaction", "SetData"))
+		for _, sd := range sds {
+			if sd.Caller != rbt {
+				continue
+			}
+			okArg := false
+			a := c4Args(sd.Instr)
+			for _, mb := range core.CallsIn(rbt, c.FuncObj(typ+".MarshalBoxData")) {
+				if len(a) != 1 || !core.Slice(a[0])[mb.Value()] {
+					continue
+				}
+				// every element appended to the marshalled list is the loop's own sub transaction, appended in every iteration that goes on
+				for v := range core.Slice(mb.Common().Args[0]) {
+					ap, ok := v.(*ssa.Call)
+					if !ok {
+						continue
+					}
+					if bi, isB := ap.Call.Value.(*ssa.Builtin); !isB || bi.Name() != "append" {
+						continue
+					}
+					el := core.Slice(ap.Call.Args[1])
+					if core.SliceHasField(el, c.FieldVar(typ+".Box", "SubTxList")) && core.EveryIterationPasses(ap) {
+						okArg = true
+					}
+				}
+			}
+			c.Check("identity-stable/RunBoxTxs:SetData(MarshalBoxData(same sub txs))", "value-flow", okArg, sd.Instr.Pos(), "the data put back into the box is the marshalled list of the very sub transactions decoded from it, each appended in every iteration that continues")
+		}
 	})
 
 	// -----------------------------------------------------------------------------------------
